@@ -36,7 +36,7 @@ Qed.
 
 Section Proofs.
   Variable beh : N -> N -> N -> outcome.
-  Variable e0 : N.
+  Variable e0 : N -> N.
 
   Notation step := (step beh e0).
   Notation reach := (reach beh e0).
@@ -589,7 +589,7 @@ Section Proofs.
   Definition is_head (t : task) : bool := match fin_of t with Some FSpawned => false | _ => true end.
   Definition heads (l : list task) : list task := filter is_head l.
   Definition key (t : task) : root := (tpipe t, tall t).
-  Definition whole (t : task) : list call * option msg := traverse (tpipe t) 0%N (tall t) e0.
+  Definition whole (t : task) : list call * option msg := traverse (tpipe t) 0%N (tall t) (e0 (tpipe t)).
   Definition here (t : task) : list call * option msg := traverse (tpipe t) (tpos t) (tnodes t) (tev t).
 
   Definition tinv (t : task) : Prop :=
@@ -902,7 +902,7 @@ Section Proofs.
      finished invocations, each the final status of the sequential traversal of its own pipeline *)
   Theorem status_sound roots c0 s : roots_ok roots -> reach roots c0 s ->
     Permutation (collected s) (sent_msgs (tasks s)) /\
-    forall t m, In t (tasks s) -> fin_of t = Some (FSent m) -> snd (traverse (tpipe t) 0%N (tall t) e0) = Some m.
+    forall t m, In t (tasks s) -> fin_of t = Some (FSent m) -> snd (traverse (tpipe t) 0%N (tall t) (e0 (tpipe t))) = Some m.
   Proof.
     intros Hr H. destruct (full_inv_reach _ _ _ Hr H) as [_ I2 [I3 _] _]. split; [exact I3|].
     intros t m Hin Hf. specialize (I2 t Hin). unfold tinv in I2. unfold fin_of in Hf. fold (whole t).
@@ -965,7 +965,7 @@ Section Proofs.
   Qed.
 
   Lemma final_of_length r : snd r <> [] -> length (final_of r) = 1.
-  Proof. intros Hne. unfold Dispatch.final_of. destruct (traverse_some (fst r) 0%N (snd r) e0 Hne) as [m Hm]. rewrite Hm. reflexivity. Qed.
+  Proof. intros Hne. unfold Dispatch.final_of. destruct (traverse_some (fst r) 0%N (snd r) (e0 (fst r)) Hne) as [m Hm]. rewrite Hm. reflexivity. Qed.
 
   Lemma length_msgs acc : length (completes acc) + length (warnings acc) = length acc.
   Proof. unfold completes, warnings. induction acc as [|[e|n sk] acc IH]; cbn [flat_map app length] in *; lia. Qed.
@@ -1295,7 +1295,7 @@ End BrokerTie.
 (* ================= the C03 statements over reachable states ================= *)
 Section ReachForms.
   Variable beh : N -> N -> N -> outcome.
-  Variable e0 : N.
+  Variable e0 : N -> N.
   Theorem progress_reach roots c0 s : roots_ok roots -> reach beh e0 roots c0 s ->
     terminal s \/ in_process s \/ exists s', internal_step beh e0 s s'.
   Proof. intros Hr H. exact (progress beh e0 s (inv_reach beh e0 roots c0 s Hr H)). Qed.
